@@ -761,7 +761,8 @@ class ConfigInformation:
 
     def set_meta(self, value: Optional[bool]):
         """Sets the meta flag"""
-        assert not self._sealed, "Configuration is sealed"
+        if self._sealed:
+            raise SealedError("Cannot change the meta flag of a sealed configuration")
         self._meta = value
 
     @property
